@@ -40,10 +40,11 @@ class TouchLog:
         self.attrs = []
         self.items = []
         self.calls = []
+        self.protocol = []
         self.infra = 0
 
     def reset(self):
-        self.attrs, self.items, self.calls, self.infra = [], [], [], 0
+        self.attrs, self.items, self.calls, self.protocol, self.infra = [], [], [], [], 0
 
 
 LOG = TouchLog()
@@ -84,6 +85,33 @@ class PlainCanary(Canary):
     """same, but not callable and not indexable (isolates attribute reads)"""
     __call__ = None
     __getitem__ = None
+
+
+def _proto(name, result):
+    def method(self, *a, **kw):
+        LOG.protocol.append((name, hooks.yaql_site(2)))
+        return result(self) if callable(result) else result
+    method.__name__ = name
+    return method
+
+
+class ProtoCanary(PlainCanary):
+    """a non-yaqlized host object that implements Python's ordering, arithmetic, size and formatting protocols:
+    implicit (operator / builtin) invocations of its methods are method calls on the object as well.  __eq__,
+    __hash__, __bool__, __str__ and __repr__ are left alone: generic functions (=, dict keys, not, str) use them on
+    any value, which the statement does not forbid; likewise the conversion protocol (__int__, __float__, __index__, __format__)
+    behind the generic conversion functions int(), float() and message formatting."""
+
+    def __bool__(self):
+        return True
+    for _n, _r in (('__lt__', True), ('__le__', True), ('__gt__', False), ('__ge__', False),
+                   ('__add__', MARKER + '-add'), ('__radd__', MARKER + '-add'), ('__sub__', 1), ('__rsub__', 1),
+                   ('__mul__', MARKER + '-mul'), ('__rmul__', MARKER + '-mul'), ('__truediv__', 1), ('__rtruediv__', 1),
+                   ('__floordiv__', 1), ('__rfloordiv__', 1), ('__mod__', 1), ('__rmod__', 1), ('__neg__', 1), ('__pos__', 1),
+                   ('__abs__', 1), ('__round__', 1), ('__len__', 1), ('__contains__', True),
+                   ('__and__', 1), ('__or__', 1), ('__xor__', 1), ('__invert__', 1), ('__lshift__', 1), ('__rshift__', 1)):
+        locals()[_n] = _proto(_n, _r)
+    del _n, _r
 
 
 class Child:
@@ -233,8 +261,11 @@ class Mon:
         for name, site in LOG.calls:
             rec.violation('host-object-touched:__call__:by=%s:via=%s' % (site, 'call()' if 'call(' in text else 'expression'),
                           '%s called a non-yaqlized host object (from %s; canary at %s)' % (text, site, where), rp)
+        for name, site in LOG.protocol:
+            rec.violation('host-object-touched:protocol:%s:by=%s' % (name, site),
+                          '%s invoked %s of a non-yaqlized host object (from %s; canary at %s)' % (text, name, site, where), rp)
         leaked = scan(out[1])
-        if leaked and not (LOG.attrs or LOG.items or LOG.calls):
+        if leaked and not (LOG.attrs or LOG.items or LOG.calls or LOG.protocol):
             rec.violation('secret-leaked-without-logged-touch', '%s produced the secret marker in %r' % (text, out[1]), rp)
         elif leaked:
             rec.count('canary.marker_in_output')
@@ -463,7 +494,7 @@ def _positions(spec, mon, rec):
         if idx % spec['parts'] != spec['part']:
             continue
         rec.count('names.' + o.name)
-        for canary_cls in (Canary, PlainCanary):
+        for canary_cls in (Canary, PlainCanary, ProtoCanary):
             for attack in (None,) + tuple(ATTACK_STRINGS[:4] if canary_cls is Canary else ()):
                 args = list(base)
                 args[i] = cat.var(cat.Fresh(canary_cls, 'CANARY'))
@@ -590,6 +621,25 @@ def _policy_extras(mon, rec):
                 rec.violation('host-object-touched:attribute:via-auto-yaqlized-class',
                               '%s succeeded although $f (%s) was never yaqlized: %r' % (text, cls.__name__, out),
                               {'kind': 'policy-auto', 'auto': True})
+    # restrictions declared on a class hold for its instances also when such an instance is handed out by an
+    # auto-yaqlizing parent (auto-yaqlization must not replace them by permissive per-instance settings)
+    @yaqlization.yaqlize(blacklist=['other', 'meth'])
+    class Restricted(Probe):
+        pass
+    cfg = {'attributes': True, 'methods': True, 'indexer': True, 'wl': 'none', 'bl': 'none', 'rm': 'none'}
+    for name, allowed in (('pub', True), ('other', False), ('meth', False), ('target', True)):
+        for text in ('$p.child.%s' % name, "$p.child['%s']" % name, '$p.child.%s()' % name):
+            p, settings = build_probe(cfg, auto=True)
+            object.__getattribute__(p, '__dict__')['child'] = Restricted()
+            out = mon.run(text, {'p': p})
+            touched = [n for n, s in LOG.attrs if n == name and s != 'unknown'] + [k for k, s in LOG.items if k == name]
+            rec.count('policy.cases')
+            rec.case(('policy-auto-restricted', text), nontrivial=True)
+            if not allowed and (touched or (out[0] == 'value' and not text.endswith('()'))):
+                rec.violation('yaqlized-policy:class-restrictions-lost-through-auto-yaqlize',
+                              '%s: the child is an instance of a class yaqlized with a whitelist/blacklist that excludes %r, '
+                              'yet it was reached: touches %r, outcome %r' % (text, name, touched, out),
+                              {'kind': 'policy-auto', 'auto': True})
     # remapping with argument mapping: alias(y => 5) -> meth(x=5)
     cfg = {'attributes': True, 'methods': True, 'indexer': True, 'wl': 'none', 'bl': 'none', 'rm': 'name+args'}
     p, settings = build_probe(cfg)
@@ -651,7 +701,7 @@ def replay(data, rec):
             policy_check(mon, data['cfg'], data['form'], data['name'], rec)
             print('touches: attrs=%r items=%r' % (LOG.attrs, LOG.items))
         elif k in ('canary', 'direct', 'position'):
-            cls = {'Canary': Canary, 'PlainCanary': PlainCanary}.get(data.get('cls'), Canary)
+            cls = {'Canary': Canary, 'PlainCanary': PlainCanary, 'ProtoCanary': ProtoCanary}.get(data.get('cls'), Canary)
             text = data['text']
             eng = mon.eng_deleg if data.get('engine') == 'delegate-syntax' else mon.eng
             vals = {}
